@@ -31,8 +31,11 @@ def make_tree():
     schema_a = space.core_schema()
     lib = space.fragment_library()
     sel = [Field("me", [Field("id"), Field("role"), Spread("UserA"), Field("pet", [TN(), Inline("Cat", [Field("lives")])])]),
-           Field("search", [TN(), Field("id")], args=[("filter", "$f")]), Field("version")]
-    doc_a = Doc(space.used_fragments(sel, lib) + [Op("query", "Op", sel, [("f", "Filter", None)])])
+           Field("search", [TN(), Field("id")], args=[("filter", "$f")]), Field("version"),
+           # several enums / custom scalars / inputs in one module: their emission order must not depend on hash seeds
+           Field("find", [TN(), Inline("http_error", [Field("code"), Field("stamp"), Field("order")]), Inline("User", [Field("since"), Field("role")])],
+                 args=[("input", "$i")])]
+    doc_a = Doc(space.used_fragments(sel, lib) + [Op("query", "Op", sel, [("f", "Filter", None), ("i", "search_input", None), ("p", "Pick", None)])])
     schema_b = gql.Schema([gql.obj("Q", [("version", "Int!"), ("me", "Who")]), gql.obj("Who", [("id", "Int!"), ("nick", "String")])],
                           {"query": "Q"})
     doc_b = Doc([Op("query", "Op", [Field("version"), Field("me", [Field("id"), Field("nick")])])])
